@@ -49,9 +49,65 @@ EXC_ALIASES: Dict[str, List[str]] = {}
 def _plain_local_assignments(tree: ast.AST) -> None:
     """Inside function bodies `x: T = v` becomes the plain assignment `x = v` (the annotation is kept on the node as `_ann`):
     adding or removing a local type annotation must not change what any rule sees.  `return a if c else b` becomes an
-    if/else of two returns."""
+    if/else of two returns.  `for name in ("a", "b"): ... getattr(o, name) ...` (a short loop over constant attribute names,
+    no break / continue / closure) is unrolled into one copy of the body per name with `getattr(o, "a")` read as `o.a`."""
+    import copy
+
+    def _unrollable(node: ast.For) -> bool:
+        if node.orelse or not isinstance(node.target, ast.Name) or not isinstance(node.iter, (ast.Tuple, ast.List)):
+            return False
+        elts = node.iter.elts
+        if not (1 <= len(elts) <= 6) or not all(isinstance(x, ast.Constant) and isinstance(x.value, str) and x.value.isidentifier() for x in elts):
+            return False
+        tid = node.target.id
+        uses_getattr = False
+        for st in node.body:
+            for x in ast.walk(st):
+                if isinstance(x, (ast.Break, ast.Continue, ast.Lambda, ast.FunctionDef, ast.AsyncFunctionDef, ast.ClassDef, ast.Yield,
+                                  ast.YieldFrom, ast.NamedExpr)):
+                    return False
+                if isinstance(x, ast.Name) and x.id == tid and not isinstance(x.ctx, ast.Load):
+                    return False
+                if isinstance(x, ast.Call) and isinstance(x.func, ast.Name) and x.func.id == "getattr" and len(x.args) == 2 \
+                        and isinstance(x.args[1], ast.Name) and x.args[1].id == tid:
+                    uses_getattr = True
+        return uses_getattr
+
+    class _Subst(ast.NodeTransformer):
+        def __init__(self, name: str, value: str) -> None:
+            self.name, self.value = name, value
+
+        def visit_Name(self, node):  # type: ignore[no-untyped-def]
+            if node.id == self.name and isinstance(node.ctx, ast.Load):
+                return ast.copy_location(ast.Constant(value=self.value), node)
+            return node
+
+        def visit_Call(self, node):  # type: ignore[no-untyped-def]
+            self.generic_visit(node)
+            if isinstance(node.func, ast.Name) and node.func.id == "getattr" and len(node.args) == 2 and not node.keywords \
+                    and isinstance(node.args[1], ast.Constant) and node.args[1].value == self.value:
+                return ast.copy_location(ast.Attribute(value=node.args[0], attr=self.value, ctx=ast.Load()), node)
+            return node
+
     class _T(ast.NodeTransformer):
         depth = 0
+
+        def visit_For(self, node):  # type: ignore[no-untyped-def]
+            self.generic_visit(node)
+            if not self.depth or not _unrollable(node):
+                return node
+            out = []
+            for c in node.iter.elts:
+                bind = ast.Assign(targets=[ast.Name(id=node.target.id, ctx=ast.Store())], value=ast.Constant(value=c.value))
+                ast.copy_location(bind, node)
+                ast.copy_location(bind.targets[0], node.target)
+                ast.copy_location(bind.value, c)
+                out.append(bind)
+                for st in node.body:
+                    out.append(_Subst(node.target.id, c.value).visit(copy.deepcopy(st)))
+            for x in out:
+                ast.fix_missing_locations(x)
+            return out
 
         def visit_FunctionDef(self, node):  # type: ignore[no-untyped-def]
             self.depth += 1
@@ -66,7 +122,22 @@ def _plain_local_assignments(tree: ast.AST) -> None:
                 new = ast.Assign(targets=[node.target], value=node.value)
                 ast.copy_location(new, node)
                 new._ann = node.annotation  # type: ignore[attr-defined]
-                return new
+                return self.visit_Assign(new) if isinstance(node.target, ast.Name) else new
+            return node
+
+        def visit_Assign(self, node):  # type: ignore[no-untyped-def]
+            # `x = f(..) if c else d` is `if c: x = f(..)` / `else: x = d` (same evaluation order) when an arm makes a call:
+            # path rules see which side of the test the call runs on
+            self.generic_visit(node)
+            v = node.value
+            if self.depth and isinstance(v, ast.IfExp) and len(node.targets) == 1 and isinstance(node.targets[0], ast.Name) \
+                    and any(isinstance(x, ast.Call) for arm in (v.body, v.orelse) for x in ast.walk(arm)):
+                a = ast.copy_location(ast.Assign(targets=[copy.deepcopy(node.targets[0])], value=v.body), node)
+                b = ast.copy_location(ast.Assign(targets=[copy.deepcopy(node.targets[0])], value=v.orelse), node)
+                for x in (a, b):
+                    if hasattr(node, "_ann"):
+                        x._ann = node._ann  # type: ignore[attr-defined]
+                return ast.copy_location(ast.If(test=v.test, body=[self.visit_Assign(a)], orelse=[self.visit_Assign(b)]), node)
             return node
 
         def visit_Return(self, node):  # type: ignore[no-untyped-def]
